@@ -1,0 +1,92 @@
+//! Verification driver (only compiled with `--cfg metrics_verif`): exposes the crate-private payload
+//! writer and a synchronous flush of the exporter state, without sockets or background threads.
+use std::sync::Arc;
+
+use metrics::{Key, Label};
+
+pub use crate::state::StateConfiguration;
+use crate::{
+    state::{FlushState, State},
+    telemetry::TelemetryUpdate,
+    writer::PayloadWriter,
+    DogStatsDRecorder,
+};
+
+/// The crate-private `PayloadWriter`.
+pub struct Writer(PayloadWriter);
+
+impl Writer {
+    /// `PayloadWriter::new`.
+    pub fn new(max_payload_len: usize, with_length_prefix: bool) -> Self {
+        Writer(PayloadWriter::new(max_payload_len, with_length_prefix))
+    }
+
+    /// `write_counter`; returns (payloads_written, points_dropped).
+    pub fn write_counter(&mut self, key: &Key, value: u64, ts: Option<u64>, prefix: Option<&str>, labels: &[Label]) -> (u64, u64) {
+        let r = self.0.write_counter(key, value, ts, prefix, labels);
+        (r.payloads_written(), r.points_dropped())
+    }
+
+    /// `write_gauge`; returns (payloads_written, points_dropped).
+    pub fn write_gauge(&mut self, key: &Key, value: f64, ts: Option<u64>, prefix: Option<&str>, labels: &[Label]) -> (u64, u64) {
+        let r = self.0.write_gauge(key, value, ts, prefix, labels);
+        (r.payloads_written(), r.points_dropped())
+    }
+
+    /// `write_histogram` / `write_distribution`; returns (payloads_written, points_dropped).
+    pub fn write_hist(&mut self, key: &Key, values: Vec<f64>, as_distribution: bool, rate: Option<f64>, prefix: Option<&str>, labels: &[Label]) -> (u64, u64) {
+        let r = if as_distribution {
+            self.0.write_distribution(key, values, rate, prefix, labels)
+        } else {
+            self.0.write_histogram(key, values, rate, prefix, labels)
+        };
+        (r.payloads_written(), r.points_dropped())
+    }
+
+    /// Drains `payloads()`: one byte vector per payload, exactly as the forwarder would send them.
+    pub fn drain(&mut self) -> Vec<Vec<u8>> {
+        let mut out = Vec::new();
+        let mut payloads = self.0.payloads();
+        while let Some(p) = payloads.next_payload() {
+            out.push(p.to_vec());
+        }
+        out
+    }
+}
+
+/// Exporter state + flush state + writer, flushed synchronously by the caller.
+pub struct Driver {
+    state: Arc<State>,
+    flush_state: FlushState,
+    writer: PayloadWriter,
+    telemetry: TelemetryUpdate,
+}
+
+impl Driver {
+    /// Creates the state as `DogStatsDBuilder::build` does.
+    pub fn new(config: StateConfiguration, max_payload_len: usize, with_length_prefix: bool) -> Self {
+        Driver {
+            state: Arc::new(State::new(config)),
+            flush_state: FlushState::default(),
+            writer: PayloadWriter::new(max_payload_len, with_length_prefix),
+            telemetry: TelemetryUpdate::default(),
+        }
+    }
+
+    /// A recorder over this state.
+    pub fn recorder(&self) -> DogStatsDRecorder {
+        DogStatsDRecorder::new(Arc::clone(&self.state))
+    }
+
+    /// One iteration of the forwarder loop without the socket: `State::flush` then `payloads()`.
+    pub fn flush_once(&mut self) -> Vec<Vec<u8>> {
+        self.telemetry.clear();
+        self.state.flush(&mut self.flush_state, &mut self.writer, &mut self.telemetry);
+        let mut out = Vec::new();
+        let mut payloads = self.writer.payloads();
+        while let Some(p) = payloads.next_payload() {
+            out.push(p.to_vec());
+        }
+        out
+    }
+}
